@@ -9,6 +9,7 @@ import (
 	"hash/fnv"
 	"sort"
 	"strconv"
+	"sync/atomic"
 
 	"github.com/vektah/gqlparser/v2"
 	"github.com/vektah/gqlparser/v2/ast"
@@ -336,6 +337,11 @@ func (c *execCtx) resolve(obj *object, f *ast.Field, fd *ast.FieldDefinition) in
 	}
 	if len(fd.Arguments) > 0 {
 		raw = c.perturb(raw, fd.Type, argsKey(args))
+	}
+	if c.e.Store != nil && fd.Type.Name() != "ID" {
+		if ep := atomic.LoadInt32(&c.e.Store.Epoch); ep != 0 {
+			raw = c.perturb(raw, fd.Type, fmt.Sprint("epoch", ep))
+		}
 	}
 	return raw
 }
